@@ -43,7 +43,7 @@ const (
 )
 
 // c05WaitLimit bounds every real-time wait of the harness; hitting it is harness trouble.
-const c05WaitLimit = 60 * time.Second
+const c05WaitLimit = 30 * time.Second
 
 // c05SpinLimit: a direction that issues this many further calls of one kind on a connection after a
 // call of that kind on that connection has already returned a failure (Read error incl. EOF and
